@@ -630,3 +630,19 @@ CLAIMS["C07"] = dict(level="other", suites=["C"], design="5/C07", extra_checks=c
 
 
 NOT_CLAIMED = {}
+
+
+def _book_tie():
+    import translated
+    return translated.book_tie()
+
+
+BOOK_NOTE = (" Translator tie (harness/py2coq_book.py; the queue as heapq uses it - a list plus the fact whether it currently is a heap - in coq/theories/HeapPy.v): "
+             "OrderBook.add, _remove, cancel, change_order_volume and the put-back of the popped orders at the end of Market._execution are REGENERATED from /repo's source on "
+             "every run, statement by statement, and coq/translated/BookC02Proofs.v is re-checked against the generated text: heappush / heappop / [0] keep or need the heap, "
+             "list.remove and a list display lose it, heapify restores it - and whenever one of these methods returns the queue is a heap again with exactly the expected "
+             "elements (add: the stamped order more, in the model's view the model's `insert`; _remove / cancel: that order less; the put-back: popped ++ rest on both sides). "
+             "The sorted list of Level M is the view `by priority` of such a heap; that heapq implements its contract is trusted.")
+for _p in ("C01", "C02", "C03"):
+    CLAIMS[_p]["ties"] += (_book_tie,)
+    CLAIMS[_p]["text"] += BOOK_NOTE
